@@ -62,6 +62,21 @@ add("C14", "invariant at the kernel boundary (hook on parallel_mcmc): assignment
 add("C18", "runtime monitor over covering arrays of the constructor option lattice, each row in its own process under an iteration budget, postconditions against the reference model; one-factor invalid values with call counters on the instrumented user callables",
     "Pairwise (38 rows) / 3-wise (~600 rows) coverage of 16 options incl. default n_particles, integer pools, save_every, boundary kinds; 34 invalid values x context variants must be rejected before any user callable is invoked.",
     "Trusted: greedy covering-array generator (coverage of t-tuples is computed, infeasible tuples dropped).")
+add("C01", "replicate ensembles of real Sampler.run() in separate processes vs closed-form posterior functionals; fixed two-stage decision rule (flag |b| > 4.5 se + 4 s/N, confirm on 2R fresh seeds); mechanism classifier for known findings",
+    "Sampling-distribution claim decided on R=32 (quick) / 64 (thorough) independent runs per cell over 16-96 cells x ~10 estimands x 3 estimators (untrimmed / trimmed / resampled from the same runs); resolves biases of ~3% of a posterior sd at N=128; thorough judges the largest N.",
+    "Trusted: closed-form targets; Rule S thresholds fixed in DESIGN 2.6; false-alarm probability per cell <= (7e-6)^2.")
+add("C02", "replicate ensembles vs closed-form evidence (two-stage rule) + deterministic RNG-state-hash monitor at every pipeline step boundary of every run (shared or repeated state = shared innovations) + batch-means F test",
+    "Evidence bias judged on R=48/96 runs per cell (se ~0.013 nat at N=128); independence decided deterministically: 1e4-1e5 RNG states hashed at step boundaries, any state shared by two seeds or recurring within a run is a witness.",
+    "Trusted: numpy global stream is the only randomness source; closed-form logZ.")
+add("C03", "injected randomness: RNG interposer serves chosen gamma/normal/uniform draws to the real TPCNRunner/RWMRunner, outcome compared with the tpCN/RWM specification (exact fold, scipy multivariate_t ratio, accept probes at alpha(1+-1e-9)); distributional invariance on exact pi_beta draws (paired z, confirm on fresh batch)",
+    "2000/20000 conformance cases decide proposal map, gamma parameters, acceptance factor, accept rule, out-of-cube rejection and one-draw-per-proposal exactly; 22/150 invariance cells x 2e4/1e5 walkers decide pi_beta-invariance per kernel x boundary kind x covariance structure at z>5 twice.",
+    "Trusted: scipy.stats.multivariate_t/truncnorm/vonmises; invariance shown for the exactly samplable families only.")
+add("C05", "invariant at a hook on the real Reweighter.run: pool snapshot -> long-double reference ESS / logZ / weights at the recorded beta; ESS limit read at the hooked _find_beta_upper_limit and validated independently",
+    "2000/50000 synthetic pools and every reweighting step of 24/400 monitored runs judged: monotone, bounded, ESS floor (rel 1e-9), volume mode within the ESS limit, recorded beta/logZ/ESS/weights self-consistent.",
+    "Trusted: long-double reference; the ESS limit reported by the code is validated, not recomputed as a global supremum.")
+add("C10", "metamorphic pairs: same seeded real run with logL and logL+c; discrete structure exact, continuous quantities to rounding, recorded logZ_t shifted by beta_t*c; mismatch must reproduce on 2 of 3 further seeds",
+    "12 (quick) / 768 (thorough) pairs over kernel x resampler x clustering x evaluation mode x metric mode x 4-8 shifts in [-1e3,1e3].",
+    "Trusted: tolerance 1e-9 on particles (RWM adaptation rounding), 1e-6 relative on weights/ESS.")
 
 NOT_YET = {}
 
